@@ -79,6 +79,11 @@ class Monitor:
                     self.ctx.count("unlock_removed_foreign_lock_after_mismatched_break")
                     for v in victim:
                         self.broken[v] = "mismatch"
+                    # the damage cascades: if the owner of the lock just removed is itself inside unlock(), its own
+                    # rename will hit whoever acquires next (thorough seed 0 case 4701)
+                    for a, nn in self.in_unlock.items():
+                        if nn == n and a != e.actor:
+                            self.unlock_hit_by_mismatch.add(a)
                 elif self.tainted:
                     self.ctx.count("exempt_unlock_rename_after_live_break")
                 else:
